@@ -61,6 +61,12 @@ Theorem C04_source_rmw_reads_under_lock : LockTable.rmw_reads_under_lock = true.
 Proof. vm_compute. reflexivity. Qed.
 Theorem C04_source_lock_order : LockTable.lock_order_ok = true.
 Proof. vm_compute. reflexivity. Qed.
+(* persisted algorithm state: in the methods that take the operation lock the study handed to Pythia is loaded, and Pythia's
+   metadata delta is written back, under that lock - two overlapping suggestion calls never start from the same stored state *)
+Theorem C04_source_algorithm_state_under_operation_lock :
+  LockTable.algorithm_state_under_op_lock = true /\
+  LockTable.methods_taking_op_lock = LockTable.expected_op_lock_methods.
+Proof. vm_compute. split; reflexivity. Qed.
 Theorem C04_source_all_rpc_methods_listed : List.length LockTable.methods_listed = 18.
 Proof. vm_compute. reflexivity. Qed.
 Print Assumptions C04_source_rmw_reads_under_lock.
